@@ -171,6 +171,37 @@ func c12() []*Ob {
 					}
 				}
 			}},
+		{Prop: "C12", ID: "C12.6", Engine: "CURSOR(typestate)", Floor: 10,
+			Desc: "the legacy parser never looks at or steps over the end of the query: in every method of tokenParser / queryParser the current rune is read (cur() and the class tests built on it) and the position is advanced (pos++) only after eof() answered false since the position last changed; methods that read before testing (parseQuotedTerms, parseRange, the class tests) rely on their callers, and every call site is checked in turn — a query that ends in the middle of an escape or a bracket must end in an error, not in an index-out-of-range panic",
+			Check: func(c *Ctx) {
+				res := c.P.CursorCheck(CursorSpec{
+					Type:     "parser.tokenParser",
+					Field:    "pos",
+					EOF:      "(*parser.tokenParser).eof",
+					Reads:    []string{"(*parser.tokenParser).cur"},
+					Receiver: []string{"parser.tokenParser", "parser.queryParser"},
+					// frozen: parseSimpleTerm returns "" only when its scanning loop consumed nothing; its callers
+					// have skipped spaces before, so the cursor still stands on the non-space rune that was tested
+					EmptyScan: []string{"(*parser.tokenParser).parseSimpleTerm"},
+				})
+				if res.Methods == 0 {
+					c.Undecided("cursor:no-methods", token.NoPos, "no methods of parser.tokenParser found")
+					return
+				}
+				c.Count("cursor_methods", res.Methods)
+				c.Count("cursor_methods_relying_on_callers", len(res.Requires))
+				for _, in := range res.Sites {
+					c.Site(in.Pos(), "%s: cursor use after eof() == false", FuncName(in.Parent()))
+				}
+				occ := map[string]int{}
+				for _, f := range res.Findings {
+					occ[FuncName(f.Fn)]++
+					c.Violation(fmt.Sprintf("cursor:%s#%d", FuncName(f.Fn), occ[FuncName(f.Fn)]), f.Instr.Pos(), "%s %s although the position has changed since eof() was last tested (or eof() answered true): for a query that ends here the parser indexes past the end of the input and the process panics", FuncName(f.Fn), f.What)
+				}
+				for _, f := range res.Entry {
+					c.Violation("cursor:entry:"+FuncName(f.Fn), f.Instr.Pos(), "%s %s", FuncName(f.Fn), f.What)
+				}
+			}},
 		{Prop: "C12", ID: "C12.3", Engine: "ERRFLOW", Floor: 2,
 			Desc: "every call of parser.ParseSeqQL / ParseQuery / ParseAggregationFilter in non-test repository code propagates the returned error (returned, wrapped, stored or fatal) — a parse error is never dropped or turned into a query",
 			Check: func(c *Ctx) {
